@@ -13,6 +13,8 @@
    length/isValid/fromString never read beyond the byte range,    utf8_readers_in_bounds, utf8_from_string_never_fails,
      arbitrary bytes (incl. truncated sequences, offset table)      utf8_is_valid_never_fails, utf8_from_string_truncated,
                                                                     utf8_is_valid_accepts_text
+                                                                    utf8_is_valid_accepts_strict_text (what the reference demands of isValid),
+                                                                    utf8_length_of_lead_bytes (length() = length of the encoding on lead bytes)
    integer conversions exact over the full range of each type     integer_roundtrips_in_range, integer_roundtrips_cast,
      (libc printf/strto* MODELLED as reference functions: trusted)  integer_prints_canonical, integer_parses_canonical
                                                                     (the three parse statements are corollaries of the next block)
@@ -34,6 +36,8 @@
    ... while handling every other byte string without             base64_in_bounds (input, 123-entry table, output buffer,
      out-of-bounds access                                           no read of an unwritten cell), base64_as_found_refuted
                                                                     (the code before fix 01 leaves the table at byte 0x80)
+                                                                    base64_attached_as_found_refuted / _partial (before fix 03 the input
+                                                                    pointer of an attached String came from the C-string view)
    Bytes are lists of Z with wf_bytes (0 <= b < 256); from_string, is_valid and from_base64 need not even that
    (the code looks at its input through (char)/(unsigned char) casts only). *)
 From Coq Require Import ZArith List.
@@ -115,6 +119,31 @@ Proof. exact is_valid_utf8_text. Qed.
 Print Assumptions utf8_is_valid_accepts_text.
 Example utf8_is_valid_accepts_text_nv : utf8_text [72; 195; 164; 226; 130; 172; 240; 159; 152; 128] = true /\ utf8_text [192; 128] = false.
 Proof. vm_compute. split; reflexivity. Qed.
+
+(* the check's reference for isValid demands acceptance of STRICT UTF-8 text only (encodings of scalar values: no surrogates, RFC 3629);
+   the validator accepts the wider class above as well, encoded surrogates included - a model fact, left open by the reference *)
+Theorem utf8_is_valid_accepts_strict_text : forall bs, utf8_strict bs = true -> utf8_text bs = true /\ is_valid bs = Ok true.
+Proof. exact (fun bs H => conj (utf8_strict_is_text bs H) (is_valid_utf8_strict bs H)). Qed.
+Print Assumptions utf8_is_valid_accepts_strict_text.
+Example utf8_is_valid_accepts_strict_text_nv :
+  utf8_strict [72; 195; 164; 226; 130; 172; 240; 159; 152; 128] = true /\ utf8_strict [65; 237; 160; 128] = false /\ utf8_text [65; 237; 160; 128] = true.
+Proof. vm_compute. split; [reflexivity|]. split; reflexivity. Qed.
+
+(* Unicode::length on the bytes that start the encoding of a code point (00..7F, C2..DF, E0..EF, F0..F4) is the length of
+   that encoding, and these are exactly the bytes some encoding starts with.  On the other 77 bytes (80..C1, F5..FF) the
+   property text asks nothing of length() but not to read beyond its argument; what the code answers there is the table
+   of utf8_readers_in_bounds - compared between model and code, not demanded by the reference *)
+Theorem utf8_length_of_lead_bytes :
+  (forall cp, 0 <= cp < 1114112 ->
+     utf8_length (hd 0 (rfc3629 cp)) = Z.of_nat (length (rfc3629 cp)) /\ starts_encoding (hd 0 (rfc3629 cp)) = true) /\
+  (forall b, starts_encoding b = true -> 0 <= lead_witness b < 1114112 /\ hd 0 (rfc3629 (lead_witness b)) = b).
+Proof. exact (conj length_of_lead_byte starts_encoding_has_witness). Qed.
+Print Assumptions utf8_length_of_lead_bytes.
+Example utf8_length_of_lead_bytes_nv :
+  utf8_length 226 = 3 /\ starts_encoding 226 = true /\ lead_witness 226 = 8192 /\ starts_encoding 244 = true /\ lead_witness 224 = 2048 /\
+  starts_encoding 192 = false /\ starts_encoding 193 = false /\ starts_encoding 245 = false /\ starts_encoding 128 = false /\
+  utf8_length 193 = 2.     (* the code's answer on a byte that starts nothing *)
+Proof. vm_compute. repeat (split; [reflexivity|]). reflexivity. Qed.
 
 (* ---- integers (libc modelled) ------------------------------------------------------------------------- *)
 
@@ -334,6 +363,21 @@ Example base64_in_bounds_nv :
   from_base64 [128; 65; 65; 65] = Ok [] /\ from_base64 [255; 255; 255; 255] = Ok [] /\ from_base64 [65; 123; 65; 65] = Ok [] /\
   from_base64 [65; 65; 61; 65] = Ok [0] /\ from_base64 [61; 61; 61; 61] = Ok [] /\ from_base64 [65; 65; 65] = Ok [].
 Proof. vm_compute. repeat split. Qed.
+
+(* the same for String::fromBase64(const String&) before fixes/C18/03: its input pointer came from the C-string view, so on an
+   attached String whose allocation ends with the window - an RFC 4648 encoding or not - it looked at the byte behind it.
+   As repaired it is from_base64 on the window: base64_in_bounds and base64_inverts_rfc4648 apply as they stand. *)
+Theorem base64_attached_as_found_refuted : forall s, from_base64_view s [] = Err OutOfBounds.
+Proof. exact base64_view_unreadable. Qed.
+Print Assumptions base64_attached_as_found_refuted.
+
+Theorem base64_attached_as_found_partial : forall s tail, tail <> [] -> from_base64_view s tail = from_base64 s.
+Proof. exact base64_view_readable. Qed.
+Print Assumptions base64_attached_as_found_partial.
+Example base64_attached_as_found_nv :
+  from_base64_view [81; 81; 61; 61] [] = Err OutOfBounds /\ from_base64 [81; 81; 61; 61] = Ok [65] /\     (* "QQ==" *)
+  from_base64_view [81; 81; 61; 61] [65] = Ok [65].
+Proof. vm_compute. split; [reflexivity|]. split; reflexivity. Qed.
 
 Theorem base64_as_found_refuted :
   wf_bytes [128; 65; 65; 65] = true /\ from_base64_unrepaired [128; 65; 65; 65] = Err OutOfBounds.
